@@ -566,6 +566,14 @@ def check_map_value_contract(prog, run, rule_id):
             for n, pos in shapes.signed_subterms(test, lambda n: isinstance(n, ast.Call) and isinstance(n.func, ast.Name) and n.func.id == "isinstance"
                                                  and len(n.args) == 2 and _is_else_type(n.args[1], else_names)):
                 return "match" if truth == pos else "nomatch"
+            # `else_ is None` / `else_ is not None` (no handler was supplied)
+            for n, pos in shapes.signed_subterms(test, lambda n: isinstance(n, ast.Compare) and len(n.ops) == 1 and isinstance(n.ops[0], (ast.Is, ast.IsNot))
+                                                 and isinstance(n.left, ast.Name) and n.left.id == "else_"
+                                                 and isinstance(n.comparators[0], ast.Constant) and n.comparators[0].value is None):
+                is_none = (truth == pos) == isinstance(n.ops[0], ast.Is)
+                return "noelse" if is_none else None
+            for n, pos in shapes.signed_subterms(test, lambda n: isinstance(n, ast.Name) and n.id == "else_"):
+                return None if truth == pos else "noelse"
             return None
 
         has_then = any(ev(n) == "then" for n in own_nodes(f.node))
@@ -597,6 +605,15 @@ def check_map_value_contract(prog, run, rule_id):
         normal = {attempt(q) for q in normal}
         raised = {attempt(q) for q in raised}
         is_future_cb = any(ev(n) in COMPLETE for n in own_nodes(f.node))
+        # a failure of the attempt (fetching the source value or running `then`) is always offered to else_: the path
+        # consults isinstance(err, else_[0]), or else_ is absent on it, or it is the cancellation hand-over
+        for seq in sorted(normal | raised):
+            core = [e for e in seq if not e.startswith("H:")]
+            if "then!" in core and not ({"match", "nomatch", "noelse", "cancel"} & set(core)):
+                run.report(r, "%s:%s:failure-not-offered(%s)" % (f.module.name, label, ">".join(core)), f.where(),
+                           "%s has a path %s on which `then` (or fetching its argument) fails and the exception is never tested "
+                           "against else_[0]: a ResolverError raised while the value is completed is not turned into a nulled "
+                           "field by the caller's handler and fails the whole operation" % (label, core))
         for seq in sorted(normal):
             core = [e for e in seq if not e.startswith("H:")]
             r.instance("%s normal path %s" % (label, core))
